@@ -53,3 +53,11 @@ Theorem C15_transformed_set_renders_the_image : forall m gs, det m <> qc0 -> for
   resolve F (transform_set m gs) (transform_glyph m g) = Some (map (aff_contour m) r).
 Proof. exact transform_render. Qed.
 Print Assumptions C15_transformed_set_renders_the_image.
+
+From U2F Require Import Geometry.Examples.
+(* non-vacuity: halving the example glyph set *)
+Example C15_transform_on_example :
+  let m := mkA (qq 1 2) qc0 qc0 (qq 1 2) qc0 qc0 in
+  det m <> qc0 /\ resolve_n (transform_set m ex_gs) n_c = option_map (map (aff_contour m)) (resolve_n ex_gs n_c).
+Proof. exact ex_transform. Qed.
+Print Assumptions C15_transform_on_example.
